@@ -195,6 +195,14 @@ impl Em<'_> {
     fn header(&mut self, gid: &str, kind: &str, src: &str, p: &Pair) {
         writeln!(self.out, "pair {gid} {kind}").unwrap();
         writeln!(self.out, "src {src}").unwrap();
+        // the source grammar: the converse direction (optimised ⇒ unoptimised) is validated through it
+        if let Ok(g) = serde_json::from_str::<serde_json::Value>(&p.json) {
+            if let Some(rules) = g["rules"].as_object() {
+                writeln!(self.out, "gjson {}", serde_json::to_string(&g).unwrap()).unwrap();
+                let order: Vec<String> = rules.keys().map(|k| hex(k.as_bytes())).collect();
+                writeln!(self.out, "ruleorder {}", order.join(" ")).unwrap();
+            }
+        }
         writeln!(self.out, "tableA\n{}end", p.table_a).unwrap();
         writeln!(self.out, "tableB\n{}end", p.table_b).unwrap();
         writeln!(self.out, "{}", p.det).unwrap();
